@@ -284,21 +284,8 @@ func v2(w *World, r *Report) {
 	if uf == nil {
 		r.Undecided("V-2", "unfreezingStakes", "refund callback not found")
 	} else {
-		var rew, del ssa.CallInstruction
-		for _, c := range CallsIn(uf) {
-			switch {
-			case c.Common().IsInvoke() && c.Common().Method.Name() == "Reward":
-				rew = c
-			case len(w.ledgerArms(c)) == 1 && w.ledgerArms(c)[0].Method == "DelFinality":
-				del = c
-			}
-		}
-		ok := rew != nil && del != nil
-		if ok {
-			ok = w.canonCall(rew.Common(), 0) == "^p1.Reward(p0.From, types.PowerToAmount(p0.Power), true)" &&
-				w.canonCall(del.Common(), 0) == "recv.frozenLedger.DelFinality(ledger.ToLedgerKey(p0.TxHash))" &&
-				instrDominates(rew, del) && w.nilTestAt(callValue(rew), del.Block()) == -1
-		}
+		v := w.unfreezeVerdict(uf)
+		ok := v.refundThenDelete
 		r.Check(ok, "V-2", "unfreezingStakes:refund-then-delete", "a matured stake's PowerToAmount(power) is credited to its owner, and only after the credit succeeded the frozen stake is deleted", "the matured-stake refund is not `credit owner power x 10^18, then delete that stake` (value would be lost or refunded twice)", fnSite(w, uf))
 		// p1 (the account handler) is the block's account handler: caller passes ctx.AcctHandler
 		eb := w.Method(pkgStake, "StakeCtrler", "EndBlock")
@@ -495,4 +482,77 @@ func (w *World) loopVariant(v ssa.Value, blk *ssa.BasicBlock) bool {
 		return false
 	}
 	return dep(v, 0)
+}
+
+// unfreezeVerdict evaluates the per-stake callback of unfreezingStakes on its
+// paths (helpers expanded) under facts about maturity and the refund's outcome.
+type unfreezeResult struct {
+	refundThenDelete bool // matured + credit ok: credit PowerToAmount(power) to the owner, then delete the frozen stake; credit failed: error, nothing deleted
+	maturity         bool // not matured: nothing is credited or deleted
+}
+
+func (w *World) unfreezeVerdict(uf *ssa.Function) unfreezeResult {
+	ev := func(in ssa.Instruction) string {
+		c, ok := in.(ssa.CallInstruction)
+		if !ok {
+			return ""
+		}
+		if c.Common().IsInvoke() && c.Common().Method.Name() == "Reward" {
+			if w.canonCall(c.Common(), 0) == "^p1.Reward(p0.From, types.PowerToAmount(p0.Power), true)" {
+				return "REW"
+			}
+			return "REW?" + w.canonCall(c.Common(), 0)
+		}
+		if arms := w.ledgerArms(c); len(arms) == 1 && arms[0].Method == "DelFinality" {
+			if w.canonCall(c.Common(), 0) == "recv.frozenLedger.DelFinality(ledger.ToLedgerKey(p0.TxHash))" {
+				return "DEL"
+			}
+			return "DEL?" + w.canonCall(c.Common(), 0)
+		}
+		return ""
+	}
+	run := func(facts ...atom) ([]pathEnd, bool) {
+		fe := w.newFactEval(nil, facts...)
+		saved := w.branchMarkers
+		w.branchMarkers = false
+		p, c := w.enumPaths(uf, fe.eval, ev, 2000)
+		w.branchMarkers = saved
+		return p, c && len(fe.used) > 0
+	}
+	matured := AR(`^p0\.RefundHeight$`, "<=", `^\^p0$`)
+	locked := AR(`^p0\.RefundHeight$`, ">", `^\^p0$`)
+	credOK := AR(`\.Reward\(p0\.From, types\.PowerToAmount\(p0\.Power\), true\)$`, "==", `^nil$`)
+	credErr := AR(`\.Reward\(p0\.From, types\.PowerToAmount\(p0\.Power\), true\)$`, "!=", `^nil$`)
+	var res unfreezeResult
+	// locked: nothing happens
+	if ps, ok := run(locked); ok {
+		res.maturity = len(ps) > 0
+		for _, p := range ps {
+			if len(p.Events) > 0 {
+				res.maturity = false
+			}
+		}
+	}
+	// matured, credit succeeded: REW then DEL on every successful path
+	a, oka := run(matured, credOK)
+	b, okb := run(matured, credErr)
+	res.refundThenDelete = oka && okb && len(a) > 0 && len(b) > 0
+	nOK := 0
+	for _, p := range a {
+		if p.Term == "ok" || p.Term == "unknown" {
+			nOK++
+			if strings.Join(p.Events, ",") != "REW,DEL" {
+				res.refundThenDelete = false
+			}
+		}
+	}
+	if nOK == 0 {
+		res.refundThenDelete = false
+	}
+	for _, p := range b {
+		if p.Term == "ok" || strings.Contains(strings.Join(p.Events, ","), "DEL") {
+			res.refundThenDelete = false
+		}
+	}
+	return res
 }
